@@ -453,6 +453,15 @@ type legacySite struct {
 	Guarded bool   `json:"guarded"`
 }
 
+// endsInReturn: the block's last statement is an unconditional return
+func endsInReturn(b *ast.BlockStmt) bool {
+	if b == nil || len(b.List) == 0 {
+		return false
+	}
+	_, ok := b.List[len(b.List)-1].(*ast.ReturnStmt)
+	return ok
+}
+
 func pathsFacts(l *loader, out string, all map[string]any) {
 	p := modPath + "/mjml"
 	info := l.infos[p]
@@ -519,16 +528,11 @@ func pathsFacts(l *loader, out string, all map[string]any) {
 							return true
 						}
 						if strings.Contains(types.ExprString(ifs.Cond), "GlobalAttributes != nil") {
-							if containsReturn(ifs.Body) || ifs.Pos() > call.Pos() {
+							// the branch taken when the per-render store exists must leave the function on every
+							// path (its last statement is a return, no conditional fall-through)
+							if endsInReturn(ifs.Body) {
 								guarded = true
 							}
-							// getter variable pattern: getGlobal := globals.Get...; if cond { getGlobal = store.Get... }
-							ast.Inspect(ifs.Body, func(k ast.Node) bool {
-								if _, ok := k.(*ast.AssignStmt); ok {
-									guarded = true
-								}
-								return true
-							})
 						}
 						return true
 					})
